@@ -1,17 +1,20 @@
 import Frp.Engines.Router
 import Frp.Engines.HttpAuth
+import Frp.Engines.Ports
 import Frp.Engines.Udp
 import Frp.Engines.Conf
 import Frp.Engines.Nat
 import Frp.Engines.Wait
 import Frp.Engines.Plugin
 import Frp.Engines.Client
+import Frp.Engines.Codec
 /-! Registry of driver engines (one line per engine). -/
 namespace Frp.Engines
 open Frp.Proto
 def all : List (String × Engine) :=
   [ ("router", router)
   , ("httpauth", httpauth)
+  , ("ports", ports)
   , ("udp", udp)
   , ("conf", conf)
   , ("nat", nat)
@@ -19,5 +22,6 @@ def all : List (String × Engine) :=
   , ("plugin", plugin)
   , ("client", client)
   , ("health", health)
+  , ("codec", codec)
   ]
 end Frp.Engines
